@@ -18,6 +18,8 @@ inductive ClsItem
   | ch (c : Nat)
   | range (lo hi : Nat)
   | digit          -- `\d` (ASCII; the model assumes ASCII input)
+  | word           -- `\w` (ASCII)
+  | space          -- `\s` (ASCII)
   deriving Repr, DecidableEq, Inhabited
 
 inductive Rx
@@ -29,12 +31,18 @@ inductive Rx
   | rep (lo : Nat) (hi : Option Nat) (r : Rx)      -- greedy
   | nlook (r : Rx)                    -- `(?!...)`
   | atEnd                             -- `$` without MULTILINE
+  | plook (r : Rx)                    -- `(?=...)`
+  | wordb (neg : Bool)                -- `\b` / `\B` (ASCII word characters)
+  | atStart                           -- `^` without MULTILINE, `\A`
+  | repLazy (lo : Nat) (hi : Option Nat) (r : Rx)  -- `*?` `+?` `??` `{m,n}?`
   deriving Repr, Inhabited
 
 def ClsItem.matches (c : Nat) : ClsItem → Bool
   | .ch d => c == d
   | .range lo hi => lo ≤ c && c ≤ hi
   | .digit => 48 ≤ c && c ≤ 57
+  | .word => (48 ≤ c && c ≤ 57) || (65 ≤ c && c ≤ 90) || (97 ≤ c && c ≤ 122) || c == 95
+  | .space => c == 32 || (9 ≤ c && c ≤ 13) || (28 ≤ c && c ≤ 31)
 
 /-- greedy repetition over a step function: every end position of `lo..hi` iterations starting at
 `i`, most iterations first (the order in which a backtracking matcher would try them) -/
@@ -46,6 +54,21 @@ def repEnds (step : Nat → List Nat) : (fuel : Nat) → Nat → Option Nat → 
         | _ => (step i).flatMap (fun j =>
             if j == i then [] else repEnds step fuel (lo - 1) (hi.map (· - 1)) j)
       more ++ (if lo == 0 then [i] else [])
+
+/-- lazy repetition: fewest iterations first -/
+def repEndsLazy (step : Nat → List Nat) : (fuel : Nat) → Nat → Option Nat → Nat → List Nat
+  | 0, lo, _, i => if lo == 0 then [i] else []
+  | fuel + 1, lo, hi, i =>
+      let more := match hi with
+        | some 0 => []
+        | _ => (step i).flatMap (fun j =>
+            if j == i then [] else repEndsLazy step fuel (lo - 1) (hi.map (· - 1)) j)
+      (if lo == 0 then [i] else []) ++ more
+
+def isWordAt (inp : Array Nat) (i : Nat) : Bool :=
+  match inp[i]? with
+  | some c => ClsItem.word.matches c
+  | none => false
 
 mutual
   /-- all end positions of a match of `r` starting at `i`, in backtracking order; `re.match`
@@ -63,6 +86,12 @@ mutual
     | .rep lo hi r, i => repEnds (fun j => Rx.ends inp r j) (inp.size + 1) lo hi i
     | .nlook r, i => if (Rx.ends inp r i).isEmpty then [i] else []
     | .atEnd, i => if i == inp.size || (i + 1 == inp.size && inp[i]? == some 10) then [i] else []
+    | .plook r, i => if (Rx.ends inp r i).isEmpty then [] else [i]
+    | .wordb neg, i =>
+        let before := if i == 0 then false else isWordAt inp (i - 1)
+        if ((before != isWordAt inp i) != neg) then [i] else []
+    | .atStart, i => if i == 0 then [i] else []
+    | .repLazy lo hi r, i => repEndsLazy (fun j => Rx.ends inp r j) (inp.size + 1) lo hi i
   def Rx.seqEnds (inp : Array Nat) : List Rx → Nat → List Nat
     | [], i => [i]
     | r :: rs, i => (Rx.ends inp r i).flatMap (fun j => Rx.seqEnds inp rs j)
